@@ -448,10 +448,11 @@ int main(int argc, char **argv)
 				const size_t r(w.ses->send_batch(v, true));
 				emit(w, "SendBatch", pre, "\"ids\":" + ids + "],\"n\":" + std::to_string(r), r == v.size());
 			}
-			else if (c == "sendpar")   // sendpar <threads> <per_thread> <batch>: concurrent application senders
+			else if (c == "sendpar")   // sendpar <threads> <per_thread> <batch> [mix]: concurrent application senders
 			{
 				const std::string pre(state_json(w));
 				const unsigned nt(strtoul(t[1].c_str(), 0, 10)), per(strtoul(t[2].c_str(), 0, 10)), bs(strtoul(t[3].c_str(), 0, 10));
+				const bool mix(t.size() > 4 && t[4] == "mix");   // every other thread sends single messages while the others send batches
 				std::string got;
 				std::mutex gm;
 				std::atomic<bool> stop_reader(false);
@@ -472,7 +473,7 @@ int main(int argc, char **argv)
 						while (go < static_cast<int>(nt)) ;    // start together
 						for (unsigned k(0); k < per; )
 						{
-							if (bs > 1)
+							if (bs > 1 && !(mix && ti % 2 == 1))
 							{
 								std::vector<Message *> v;
 								for (unsigned j(0); j < bs && k < per; ++j, ++k)
